@@ -390,3 +390,146 @@ def c13(out):
         run_sharded(out, exe, ["--has128", str(h128), "--has256", str(h256)], vname, cases)
     out.assumptions += ["CPU models are emulations served through CPUID faulting on one physical CPU; XGETBV cannot be trapped, so 'OS has not enabled AVX state' is represented only through OSXSAVE=0",
                         "expected back end = widest of {generic, vec128 if SSE2, vec256 if max leaf>=7 and leaf7.0 EBX[5] and OSXSAVE and AVX and XCR0[2:1]=11b} that the build compiled in"]
+
+
+# --------------------------------------------------------------------- C08
+def _ct_control(out, exe, env, wrapper, label, expect_abort):
+    rr = core.run_driver(list(wrapper) + [exe, "--control", "1"], env=env, timeout=300)
+    reports = sum(j.get("reports", 0) for j in rr.records if j.get("type") == "control")
+    fired = (rr.rc not in (0, None)) if expect_abort else (reports >= 2)
+    out.observed["positive_control_" + label] = {"reports": reports, "exit": rr.rc, "fired": fired}
+    if not fired:
+        out.inconclusive.append({"reason": "taint monitor positive control did not fire (%s): reports=%d rc=%s" % (label, reports, rr.rc)})
+    return fired
+
+
+@check("C08")
+def c08(out):
+    out.rule = ("public-parameter grid enumerated by case index: (a) key-schedule and single-block functions for every legal key length, tweak length 1..B or NULL, Mantis rounds x mode incl. swap_modes; (b) CTR objects per "
+                "cipher x back end x key length x tweak length x counter length 0..B/NULL x total 0..200 bytes in 1..4 calls incl. a mid-stream rekey; (c) parallel ECB per cipher x back end x key length x 0..20 blocks; "
+                "all key/tweak/counter/data bytes are marked undefined before each call; memcheck (shipped -O3 build, all back ends incl. AVX2) and clang MemorySanitizer report any conditional jump or address "
+                "computed from them; reports are attributed to the API call (error-count delta / abort containment). distinct = distinct (function, back end, public parameters) points executed.")
+    vgw = ["valgrind", "-q", "--error-limit=no", "--error-exitcode=0", "--num-callers=12"]
+    env = core.san_env("prod")
+    exe = build_driver("drv_ct_vg", ["drv_ct.c"] + HIST, "prod", extra=["-DVH_VALGRIND"])
+    if _ct_control(out, exe, env, vgw, "memcheck", False):
+        run_sharded(out, exe, ["--case-timeout", "900"], "prod", n(out, 2400, 30000), label="memcheck", wrapper=vgw, timeout=3000)
+        out.variants.append("prod (-O3, shipped flags) under valgrind memcheck")
+    exe = build_driver("drv_ct", ["drv_ct.c"] + HIST, "msan")
+    if _ct_control(out, exe, core.san_env("msan"), [], "msan", True):
+        run_sharded(out, exe, [], "msan", n(out, 6000, 120000), label="msan")
+    if out.tier == "thorough":
+        for vname in ("clang", "prod+W32", "prod+UNAL0", "prod+NEUTRAL", "prod+O0", "clang+W32"):
+            exe = build_driver("drv_ct_vg", ["drv_ct.c"] + HIST, vname, extra=["-DVH_VALGRIND"])
+            run_sharded(out, exe, ["--case-timeout", "900"], vname, 9000, label="memcheck-" + vname, wrapper=vgw, timeout=3000)
+        for vname in ("msan+W32", "msan+NEUTRAL", "msan+UNAL0"):
+            exe = build_driver("drv_ct", ["drv_ct.c"] + HIST, vname)
+            run_sharded(out, exe, [], vname, 30000, label=vname)
+    out.assumptions += ["memcheck / MSan definedness propagation is the taint model: a secret that reaches a branch condition or an address on an executed path is reported; paths not executed by the grid are not judged",
+                        "microarchitectural timing beyond branches and addresses (e.g. variable-latency instructions) is out of reach; lengths, round counts, modes, pointers and alignment are public",
+                        "only build configurations possible on this host"]
+
+
+# --------------------------------------------------------------------- C18
+import re as _re
+
+
+def _race_reports(stderr, tool):
+    """Split sanitizer/helgrind output into reports; return list of (key-suffix, text)."""
+    reps = []
+    if tool == "tsan":
+        for blk in stderr.split("=================="):
+            if "WARNING: ThreadSanitizer" not in blk:
+                continue
+            kind = _re.search(r"WARNING: ThreadSanitizer: ([^(\n]+)", blk).group(1).strip().replace(" ", "-")
+            frames = _re.findall(r"#0 ([A-Za-z_0-9]+)", blk)[:2]
+            reps.append(("%s:%s" % (kind, "+".join(frames) or "?"), blk.strip()[:3000]))
+    else:
+        for m in _re.finditer(r"(Possible data race[^\n]*\n(?:==\d+==[^\n]*\n){1,30})", stderr):
+            blk = m.group(1)
+            frames = _re.findall(r"(?:at|by) 0x[0-9A-F]+: ([A-Za-z_0-9]+)", blk)
+            libf = [f for f in frames if f.startswith(("skinny", "mantis", "_skinny", "_mantis"))][:2]
+            if libf:
+                reps.append(("data-race:" + "+".join(libf), blk[:3000]))
+    return reps
+
+
+def _thr_run(out, exe, vname, reps, tool, shards=4, wrapper=(), threads=16, timeout=1800):
+    env = core.san_env(vname)
+    env["TSAN_OPTIONS"] = "halt_on_error=0:exitcode=0:report_signal_unsafe=0:history_size=4"
+    futs = []
+    for i in range(shards):
+        cmd = list(wrapper) + [exe, "--seed", str(out.seed), "--cases", str(reps), "--shard", "%d/%d" % (i, shards), "--variant", vname, "--threads", str(threads),
+                               "--distinct-file", os.path.join(core.workdir(), "thr-%s-%s-%d.bin" % (tool, vname.replace("+", "_"), i))]
+        futs.append((core.pool().submit(core.run_driver, cmd, env, timeout), cmd[-1]))
+    for f, dfile in futs:
+        rr = f.result()
+        out.absorb(rr, vname)
+        out.add_distinct_file(dfile)
+        for suffix, text in _race_reports(rr.stderr, tool):
+            out.violation("C18:%s:%s:%s" % (tool, vname, suffix), detail={"report": text}, replay={"driver": "drv_thr", "variant": vname, "seed": out.seed, "note": "race reports vary from run to run; re-run the check"})
+    out.evaluations += reps
+    out.variants.append("%s (%s)" % (vname, tool))
+
+
+@check("C18")
+def c18(out):
+    out.rule = ("repetition index -> workload (distinct objects / shared read-only key schedules and parallel-ECB objects / init+cleanup storm) x back-end cap; 16 threads released by a barrier run generated CTR and parallel "
+                "histories, reads on shared schedules, or init/use/cleanup loops with random yields and sleeps between calls; oracles: ThreadSanitizer (gcc, thorough: clang; helgrind on the shipped build) must print no report, "
+                "and every thread's transcript must equal the transcript of the same work computed sequentially beforehand. Evidence counts threads simultaneously inside library calls and distinct interleaving signatures. "
+                "distinct = distinct repetition contents (history hashes / seeds).")
+    # positive control: the detector must see a deliberate race
+    exe = build_driver("drv_thr", ["drv_thr.c"] + HIST, "tsan", libs=["-pthread"])
+    env = core.san_env("tsan"); env["TSAN_OPTIONS"] = "halt_on_error=0:exitcode=0"
+    rr = core.run_driver([exe, "--control", "1"], env=env, timeout=120)
+    fired = "ThreadSanitizer: data race" in rr.stderr
+    out.observed["positive_control_tsan_reported_deliberate_race"] = fired
+    if not fired:
+        out.inconclusive.append({"reason": "ThreadSanitizer positive control did not report the deliberate race"})
+    _thr_run(out, exe, "tsan", n(out, 240, 6000), "tsan")
+    if out.tier == "thorough":
+        exe = build_driver("drv_thr", ["drv_thr.c"] + HIST, "tsanclang", libs=["-pthread"])
+        _thr_run(out, exe, "tsanclang", 3000, "tsan")
+        exe = build_driver("drv_thr", ["drv_thr.c"] + HIST, "tsan+W32", libs=["-pthread"])
+        _thr_run(out, exe, "tsan+W32", 600, "tsan")
+        exe = build_driver("drv_thr", ["drv_thr.c"] + HIST, "prod", libs=["-pthread"])
+        _thr_run(out, exe, "prod", 48, "helgrind", shards=8, wrapper=["valgrind", "--tool=helgrind", "-q", "--history-level=approx"], threads=8, timeout=3000)
+    else:
+        exe = build_driver("drv_thr", ["drv_thr.c"] + HIST, "prod", libs=["-pthread"])
+        _thr_run(out, exe, "prod", n(out, 600, 600), "plain", shards=4)
+    if out.maxima.get("max_threads_simultaneously_inside_library_calls", 0) < 2:
+        out.inconclusive.append({"reason": "threads never overlapped inside library calls"})
+    out.assumptions += ["interleavings are sampled, not enumerated; TSan's happens-before analysis reports a conflicting unsynchronised access pair whenever the two accesses are not ordered, without needing the exact racy timing",
+                        "the back-end cap hook is written only by the main thread before the threads of a repetition are created"]
+
+
+# --------------------------------------------------------------------- C19
+@check("C19")
+def c19(out):
+    ard = os.path.join(core.REPO, "arduino", "libraries", "Skinny")
+    out.rule = ("Arduino sources (portable C++ path) compiled for the host from the working tree; case index -> class of 11 (3 of 4 cases) or CTR<T> over the five Skinny-128 classes (1 of 4): random sequences of 2..40 operations over "
+                "setKey (valid and wrong lengths), setTweak (bytes / NULL / wrong length), swapModes (Mantis8), encryptBlock, decryptBlock (in place 1/3), clear+setKey; every block compared with the C library keyed from scratch "
+                "with (key, latest tweak, mode) and with the reference model. CTR<T>: setKey, setIV (carries/wrap), encrypt/decrypt with random cuts incl. zero-length, in place or not, compared with skinny128_ctr_*. "
+                "distinct = distinct (class, key, tweak sequence) / (class, key, iv, cuts).")
+    cxx = [os.path.join(ard, f) for f in sorted(os.listdir(ard)) if f.endswith(".cpp")]
+    v = [("prod", n(out, 24000, 1200000)), ("asan", n(out, 6000, 150000))]
+    if out.tier == "thorough":
+        v += [("clang", 200000), ("prod+O0", 60000), ("msan", 40000), ("prod+O3", 100000), ("asanclang", 40000)]
+    for vname, cases in v:
+        exe = core.build_cxx_driver("drv_ard", [os.path.join(core.HARNESS, "drv_ard.cpp")] + cxx, [], vname, incs=[ard])
+        run_sharded(out, exe, [], vname, cases)
+    out.observed["arduino_sources_compiled"] = [os.path.basename(f) for f in cxx]
+    out.assumptions += ["only the portable (non-AVR) C++ path can run on the host; the AVR inline-assembly path is out of reach (the property says so)",
+                        "the C library is tied to the specification by C01-C05; the reference models are compared directly as well"]
+
+
+# --------------------------------------------------------------------- C20
+@check("C20")
+def c20(out):
+    from . import c20 as m
+    out.rule = ("the three example tools are built from the working tree (shipped flags and ASan/UBSan) and run on generated files: lengths 0,1,B-1,B,B+1,1023..1025,2047..2049,3000 and random up to 64 KiB, both block sizes, "
+                "every legal key length for the tool, counter/tweak absent or of length 1..B with carry chains (skinny-tweak's per-block increment crosses bytes and the 1024-byte chunk), hex spelled in five styles; "
+                "output must have the right length and equal the library API driven directly by an oracle program (whole file, one call) which must equal the reference model; a second run (-d for tweak/ecb) must restore the input; "
+                "29 classes of invalid invocations per tool/block size must exit non-zero, not crash, and leave no output file. distinct = distinct (tool, block, length, key, counter/tweak, direction) or invalid argument vectors.")
+    m.run(out)
+    out.assumptions += ["tools run as subprocesses on temporary files in a private directory", "oracle program uses the library from the same build; the reference model is compared as well"]
